@@ -275,6 +275,32 @@ pub fn run_check(replay: Option<Value>) -> i32 {
                         out.validated += 1;
                         out.tag("invariant-checked");
                     }
+                    // a lower bound on the step size that the run never needs to go below (min_step = first_step
+                    // = 1e-9 * span) must not change the amount of work: same problem, same tolerance
+                    if shape == 0 && !backward && scale == 1.0 {
+                        let mut cm = c.clone();
+                        cm.budget = 200_000;
+                        cm.min_step = Some(1e-9 * fam.span);
+                        cm.first_step = Some(1e-9 * fam.span);
+                        let mut cf = c.clone();
+                        cf.first_step = Some(1e-9 * fam.span);
+                        let (rm, rf) = (run(&p, &cm), run(&p, &cf));
+                        out.events += rm.st.n_ode + rf.st.n_ode;
+                        match (rm.sol(), rf.sol()) {
+                            // (judged when the run without the bound never rejected an attempt: then no step of
+                            // it was ever shorter than its first one, and the bound is never needed)
+                            (Some(sm), Some(sf)) if sf.status == Status::Success && sf.nrejct == 0 && sf.nstep == sf.naccpt => {
+                                if sm.status != Status::Success || sm.naccpt > 2 * sf.naccpt + 20 {
+                                    viols.push(("min-step-work".into(), format!("k={:e}: with min_step = first_step = {:e} the run ends with {:?} after {} accepted steps; without min_step {} steps", k, 1e-9 * fam.span, sm.status, sm.naccpt, sf.naccpt)));
+                                }
+                                out.tag("min-step-checked");
+                            }
+                            (None, Some(sf)) if sf.status == Status::Success && sf.nrejct == 0 && sf.nstep == sf.naccpt => {
+                                viols.push(("min-step-work".into(), format!("k={:e}: with min_step = first_step = {:e} the run ended with {}; without min_step it succeeds in {} steps", k, 1e-9 * fam.span, rm.outcome_name(), sf.naccpt)));
+                            }
+                            _ => {}
+                        }
+                    }
                     match base_counts {
                         None => base_counts = Some((s.naccpt, s.nfev)),
                         Some((na, nf)) => {
